@@ -2036,3 +2036,34 @@ mod test {
         }
     }
 }
+
+// Verification hook H3 (read-only, add-only): see tree_store/page_store/verif/snapshot.rs
+#[cfg(redb_verif)]
+impl Database {
+    /// Snapshot of the allocator, header slots, unpersisted state and transaction tracker
+    pub fn verif_snapshot(&self) -> crate::verif::VDbSnapshot {
+        crate::verif::VDbSnapshot {
+            mem: self.mem.verif_snapshot(),
+            tracker: self.transaction_tracker.verif_snapshot(),
+        }
+    }
+
+    /// Pages reachable from the given committed roots (use the slots of `verif_snapshot()`, a
+    /// reader's or a savepoint's root), through redb's own walkers
+    pub fn verif_reach(
+        &self,
+        data_root: Option<crate::verif::VRoot>,
+        system_root: Option<crate::verif::VRoot>,
+    ) -> Result<crate::verif::VReach> {
+        crate::verif::reach(
+            &self.mem,
+            data_root.map(crate::verif::VRoot::header),
+            system_root.map(crate::verif::VRoot::header),
+        )
+    }
+
+    /// Bytes of a page as the engine currently sees it (write buffer, cache, then file)
+    pub fn verif_read_page(&self, page: crate::verif::VPage) -> Result<Vec<u8>> {
+        crate::verif::read_page(&self.mem, page)
+    }
+}
